@@ -2,7 +2,10 @@
 # re-run every stored seeded change against the check of its property (long: ~1 h); prints one line per change
 ROOT="$(cd "$(dirname "$0")/.." && pwd)"
 cd "$ROOT"
+# optional sharding: tools/seed_regress.sh <k> <n> runs the entries whose index is k modulo n
+K=${1:-0}; N=${2:-1}; i=-1
 for d in seeded/*/; do
+  i=$((i+1)); [ $((i % N)) -eq $K ] || continue
   n=$(basename $d)
   case $n in harmless-*) p=$(python3 -c "import json;print(json.load(open('$d/meta.json'))['property'])");; *) p=${n:0:3};; esac
   r=$(tools/seedrun.sh $n $p 2>&1 | grep -E "^(VIOLATION|OK|KNOWN)" | head -1)
